@@ -53,6 +53,12 @@ func ruleBoxIntersection(c *Ctx) {
 		for axis, el := range cl.Elts {
 			n++
 			cons := fmt.Sprintf("clip.Bound#%s[%d]", id.Name, axis)
+			// a local defined once stands for its definition
+			if lid, isID := ast.Unparen(el).(*ast.Ident); isID {
+				if def := singleDef(pk, fd, lid); def != nil {
+					el = def
+				}
+			}
 			call, ok := ast.Unparen(el).(*ast.CallExpr)
 			wantFn := map[string]string{"Min": "Max", "Max": "Min"}[id.Name]
 			bad := ""
@@ -238,4 +244,34 @@ func ruleCompactionIndex(keep func(string) bool, floor int) ruleFunc {
 		})
 		c.R.Floor("H7-compaction-index", n, floor)
 	}
+}
+
+// singleDef returns the right-hand side of the only assignment to the variable
+// id refers to, or nil.
+func singleDef(pkg *packages.Package, fd *ast.FuncDecl, id *ast.Ident) ast.Expr {
+	obj := pkg.TypesInfo.Uses[id]
+	if obj == nil {
+		return nil
+	}
+	var rhs ast.Expr
+	n := 0
+	ast.Inspect(fd.Body, func(nd ast.Node) bool {
+		as, ok := nd.(*ast.AssignStmt)
+		if !ok {
+			return true
+		}
+		for i, l := range as.Lhs {
+			if lid, ok := l.(*ast.Ident); ok && (pkg.TypesInfo.Defs[lid] == obj || pkg.TypesInfo.Uses[lid] == obj) {
+				n++
+				if len(as.Lhs) == len(as.Rhs) {
+					rhs = as.Rhs[i]
+				}
+			}
+		}
+		return true
+	})
+	if n != 1 {
+		return nil
+	}
+	return rhs
 }
